@@ -157,6 +157,7 @@ def run_obligations(work, obs, batch=24, second_chance=True, log=None):
             if ob.kind != "eq":
                 ob.fn = fn
                 ob.mod = mod
+                ob.ref_fns = [mod.functions.get("k%d_ref%d" % (li, j)) for j in range(len(ob.refs))]
                 ob.status = "compiled"
                 continue
             try:
